@@ -295,7 +295,7 @@ def run(cx, out):
                     out.ob('R05.3', 'codec-fuzzer %s/cycle' % i['self'], any(m in ms for m in wire.ENC_METHODS), 'no output method overridden', i['loc'])
                     w = S2.wire_impl(i)
                     out.ob('R05.1', 'codec-fuzzer %s/recognised' % i['self'], not c02.find_kind(cmp_form(w), 'opaque'), 'unrecognised derived encoder: ' + shape.wshow(w)[:100], i['loc'])
-            out.floor('R05.1', 'derive sites in codec-fuzzer', n, 10)
+            out.floor('R05.1', 'Encode impls in codec-fuzzer', n, 4)
         except factsmod.BuildError as e:
             out.note('codec-fuzzer could not be compiled under the driver: %s' % str(e)[:200])
     from . import positive
